@@ -283,7 +283,7 @@ func respReleaseSite(c *cx, id string, f *eng.Fn, call *ast.CallExpr, ri int) {
 			continue
 		}
 		for _, st := range l.Body.List {
-			cond, ibody, _, ok := asIf(st)
+			cond, ibody, _, ok := asIfIn(f, st)
 			if !ok || !closesR(&ast.BlockStmt{List: ibody}) {
 				continue
 			}
@@ -883,7 +883,7 @@ func handoffWithdrawn(c *cx, id string, rel, fname, queue string) {
 		w := wd{ds: ds}
 		okShape := true
 		for _, st := range l.Body.List {
-			if cond, ibody, els, ok := asIf(st); ok && !recvQueue(st) {
+			if cond, ibody, els, ok := asIfIn(f, st); ok && !recvQueue(st) {
 				// an early return: must be `if flag { return }`
 				idn, isID := ast.Unparen(cond).(*ast.Ident)
 				ret := len(ibody) == 1
